@@ -22,7 +22,7 @@ pub struct Model {
     pub limit: usize,
     present: Vec<bool>,
     /// running sum of the recorded sizes (kept equal to the sum over `order`)
-    sum: usize,
+    sum: u128,
 }
 
 impl Model {
@@ -34,13 +34,15 @@ impl Model {
         self.order.len()
     }
 
+    /// Sum of the recorded sizes. For a correct cache this is at most the
+    /// limit; saturates instead of wrapping should it ever not fit.
     pub fn total(&self) -> usize {
-        self.sum
+        self.sum.min(usize::MAX as u128) as usize
     }
 
     /// Changes the recorded size of the i-th entry.
     pub fn set_size(&mut self, i: usize, size: usize) {
-        self.sum = self.sum - self.order[i].size + size;
+        self.sum = self.sum - self.order[i].size as u128 + size as u128;
         self.order[i].size = size;
     }
 
@@ -65,14 +67,14 @@ impl Model {
             self.present.resize(e.k as usize + 1, false);
         }
         self.present[e.k as usize] = true;
-        self.sum += e.size;
+        self.sum += e.size as u128;
         self.order.push(e);
     }
 
     pub fn remove_at(&mut self, i: usize) -> Ent {
         let e = self.order.remove(i);
         self.present[e.k as usize] = false;
-        self.sum -= e.size;
+        self.sum -= e.size as u128;
         e
     }
 
@@ -84,10 +86,8 @@ impl Model {
     /// Pops least-recently-used entries while the total exceeds `target`.
     pub fn evict_to(&mut self, target: usize) -> Vec<Ent> {
         let mut out = Vec::new();
-        let mut total = self.total();
-        while total > target && !self.order.is_empty() {
+        while self.sum > target as u128 && !self.order.is_empty() {
             let e = self.remove_at(0);
-            total -= e.size;
             out.push(e);
         }
         out
@@ -122,7 +122,7 @@ impl Model {
             }
             self.present[e.k as usize] = true;
         }
-        self.sum = ents.iter().map(|e| e.size).sum();
+        self.sum = ents.iter().map(|e| e.size as u128).sum();
         self.order = ents;
     }
 }
